@@ -1,6 +1,7 @@
 import ObiVerif.Model.Fp
 import ObiVerif.Driver.Util
-/-! line protocol for C20: `<width> <op> <limbs…>` (limbs most significant first, decimal) -/
+/-! line protocol for C20: `<width> <op> <limbs…>` (limbs most significant first, decimal); result `ok …` / `i k` /
+`b true|false` / `panic`, followed by ` warn=<k>` when `k > 0` logrus warnings were logged -/
 namespace ObiVerif.Driver.C20
 open ObiVerif.Fp ObiVerif.Driver
 
@@ -8,16 +9,18 @@ def showB (b : Bool) : String := if b then "b true" else "b false"
 def show64 (u : U64) : String := s!"ok {u.w0}"
 def show128 (u : U128) : String := s!"ok {u.w1} {u.w0}"
 def show256 (u : U256) : String := s!"ok {u.w3} {u.w2} {u.w1} {u.w0}"
+/-- `log.Warnf` calls are an outcome component: ` warn=<k>` is appended when the model counts `k > 0` warnings -/
+def withWarn (s : String) (k : Nat) : String := if k = 0 then s else s!"{s} warn={k}"
 def ex {α} (f : α → String) : Except Unit α → String
   | .ok a => f a
   | .error _ => "panic"
 
 def run64 (op : String) (a : List Nat) : String :=
   match op, a with
-  | "shl", [x, n] => show64 ((U64.mk x).leftShift n)
-  | "shr", [x, n] => show64 ((U64.mk x).rightShift n)
-  | "shl64", [x, n, c] => let r := leftShift64 x n c; s!"ok {r.1} {r.2}"
-  | "shr64", [x, n, c] => let r := rightShift64 x n c; s!"ok {r.1} {r.2}"
+  | "shl", [x, n] => withWarn (show64 ((U64.mk x).leftShift n)) (U64.leftShiftWarns ⟨x⟩ n)
+  | "shr", [x, n] => withWarn (show64 ((U64.mk x).rightShift n)) (U64.rightShiftWarns ⟨x⟩ n)
+  | "shl64", [x, n, c] => let r := leftShift64 x n c; withWarn s!"ok {r.1} {r.2}" (leftShift64Warns n)
+  | "shr64", [x, n, c] => let r := rightShift64 x n c; withWarn s!"ok {r.1} {r.2}" (rightShift64Warns n)
   | "add", [x, y] => ex show64 (U64.add ⟨x⟩ ⟨y⟩)
   | "sub", [x, y] => ex show64 (U64.sub ⟨x⟩ ⟨y⟩)
   | "mul", [x, y] => ex show64 (U64.mul ⟨x⟩ ⟨y⟩)
@@ -49,8 +52,8 @@ def run64 (op : String) (a : List Nat) : String :=
 
 def run128 (op : String) (a : List Nat) : String :=
   match op, a with
-  | "shl", [x1, x0, n] => show128 ((U128.mk x1 x0).leftShift n)
-  | "shr", [x1, x0, n] => show128 ((U128.mk x1 x0).rightShift n)
+  | "shl", [x1, x0, n] => withWarn (show128 ((U128.mk x1 x0).leftShift n)) (U128.leftShiftWarns ⟨x1, x0⟩ n)
+  | "shr", [x1, x0, n] => withWarn (show128 ((U128.mk x1 x0).rightShift n)) (U128.rightShiftWarns ⟨x1, x0⟩ n)
   | "add", [x1, x0, y1, y0] => ex show128 (U128.add ⟨x1, x0⟩ ⟨y1, y0⟩)
   | "add64", [x1, x0, y] => ex show128 (U128.add64 ⟨x1, x0⟩ y)
   | "sub", [x1, x0, y1, y0] => ex show128 (U128.sub ⟨x1, x0⟩ ⟨y1, y0⟩)
@@ -66,7 +69,7 @@ def run128 (op : String) (a : List Nat) : String :=
   | "or", [x1, x0, y1, y0] => show128 (U128.or ⟨x1, x0⟩ ⟨y1, y0⟩)
   | "xor", [x1, x0, y1, y0] => show128 (U128.xor ⟨x1, x0⟩ ⟨y1, y0⟩)
   | "not", [x1, x0] => show128 (U128.not ⟨x1, x0⟩)
-  | "to64", [x1, x0] => show64 (U128.toU64 ⟨x1, x0⟩)
+  | "to64", [x1, x0] => withWarn (show64 (U128.toU64 ⟨x1, x0⟩)) (U128.toU64Warns ⟨x1, x0⟩)
   | "to128", [x1, x0] => show128 (U128.toU128 ⟨x1, x0⟩)
   | "to256", [x1, x0] => show256 (U128.toU256 ⟨x1, x0⟩)
   | "div", [x1, x0, y1, y0] => ex show128 (U128.div ⟨x1, x0⟩ ⟨y1, y0⟩)
@@ -90,8 +93,10 @@ def run128 (op : String) (a : List Nat) : String :=
 
 def run256 (op : String) (a : List Nat) : String :=
   match op, a with
-  | "shl", [x3, x2, x1, x0, n] => show256 ((U256.mk x3 x2 x1 x0).leftShift n)
-  | "shr", [x3, x2, x1, x0, n] => show256 ((U256.mk x3 x2 x1 x0).rightShift n)
+  | "shl", [x3, x2, x1, x0, n] =>
+      withWarn (show256 ((U256.mk x3 x2 x1 x0).leftShift n)) (U256.leftShiftWarns ⟨x3, x2, x1, x0⟩ n)
+  | "shr", [x3, x2, x1, x0, n] =>
+      withWarn (show256 ((U256.mk x3 x2 x1 x0).rightShift n)) (U256.rightShiftWarns ⟨x3, x2, x1, x0⟩ n)
   | "add", [x3, x2, x1, x0, y3, y2, y1, y0] => ex show256 (U256.add ⟨x3, x2, x1, x0⟩ ⟨y3, y2, y1, y0⟩)
   | "sub", [x3, x2, x1, x0, y3, y2, y1, y0] => ex show256 (U256.sub ⟨x3, x2, x1, x0⟩ ⟨y3, y2, y1, y0⟩)
   | "mul", [x3, x2, x1, x0, y3, y2, y1, y0] => ex show256 (U256.mul ⟨x3, x2, x1, x0⟩ ⟨y3, y2, y1, y0⟩)
@@ -104,8 +109,8 @@ def run256 (op : String) (a : List Nat) : String :=
   | "or", [x3, x2, x1, x0, y3, y2, y1, y0] => show256 (U256.or ⟨x3, x2, x1, x0⟩ ⟨y3, y2, y1, y0⟩)
   | "xor", [x3, x2, x1, x0, y3, y2, y1, y0] => show256 (U256.xor ⟨x3, x2, x1, x0⟩ ⟨y3, y2, y1, y0⟩)
   | "not", [x3, x2, x1, x0] => show256 (U256.not ⟨x3, x2, x1, x0⟩)
-  | "to64", [x3, x2, x1, x0] => show64 (U256.toU64 ⟨x3, x2, x1, x0⟩)
-  | "to128", [x3, x2, x1, x0] => show128 (U256.toU128 ⟨x3, x2, x1, x0⟩)
+  | "to64", [x3, x2, x1, x0] => withWarn (show64 (U256.toU64 ⟨x3, x2, x1, x0⟩)) (U256.toU64Warns ⟨x3, x2, x1, x0⟩)
+  | "to128", [x3, x2, x1, x0] => withWarn (show128 (U256.toU128 ⟨x3, x2, x1, x0⟩)) (U256.toU128Warns ⟨x3, x2, x1, x0⟩)
   | "to256", [x3, x2, x1, x0] => show256 (U256.toU256 ⟨x3, x2, x1, x0⟩)
   | "zero", [x3, x2, x1, x0] => show256 (U256.zero ⟨x3, x2, x1, x0⟩)
   | "max", [x3, x2, x1, x0] => show256 (U256.maxValue ⟨x3, x2, x1, x0⟩)
